@@ -219,6 +219,40 @@ def run(ctx: Ctx):
                         ctx.count("scalar:" + op, key)
     n2, _ = check_entries(ctx, items, lambda k: "expression:" + root_of(k["tree"]), "C01_tree")
     ctx.traces = n1 + n2
+    default_mode_stream(ctx, seed, level)
+
+
+def default_mode_stream(ctx, seed, level):
+    """The checks run the library in 64-bit mode (exact dyadic arithmetic).  What shows only in the library's DEFAULT
+    32-bit mode (buffer donation, dtype defaults) is probed in a sub-process: every configuration in single precision,
+    forward and adjoint applied (twice) to conforming inputs, adjoint identity on random vectors."""
+    import json
+    import os
+    import subprocess
+    import sys
+    from vf.common import VERIF, REPO
+    env = dict(os.environ, PYTHONPATH=f"{REPO}:{VERIF}", VERIF_DEFAULT_MODE="1", JAX_PLATFORMS="cpu")
+    env.pop("JAX_ENABLE_X64", None)
+    cap = 4 if ctx.quick else 1000
+    p = subprocess.run([sys.executable, "-W", "ignore", str(VERIF / "vf" / "default_mode_probe.py"), str(seed), str(level), str(cap)],
+                       capture_output=True, text=True, env=env, timeout=3000)
+    done = None
+    for line in p.stdout.splitlines():
+        try:
+            r = json.loads(line)
+        except Exception:   # noqa: BLE001
+            continue
+        if "done" in r:
+            done = r["done"]
+            continue
+        ctx.violation(r["key"]["class"], r["what"], r["key"], expected="a value / <Ax,y> = <x,A^H y>", observed=r["obs"],
+                      oracle="adjoint identity on random single-precision vectors (default numeric mode)")
+    ctx.obligation(done is not None, "default-mode probe ran to completion", (p.stderr or "")[-600:])
+    if done:
+        for _ in range(done):
+            pass
+        ctx.count("default-mode", {"configurations": done, "seed": seed, "level": level})
+        ctx.notes.append(f"default (32-bit) mode probe: {done} configurations")
 
 
 def root_of(desc):
@@ -227,6 +261,11 @@ def root_of(desc):
 
 def replay(ctx: Ctx, rec):
     key = rec["input"]
+    if str(key.get("mode", "")).startswith("default"):
+        c2 = Ctx(ctx.pid, ctx.tier, key["catalogue_seed"])
+        c2.known = []
+        default_mode_stream(c2, key["catalogue_seed"], key["level"])
+        return not any(v["input"].get("index") == key["index"] for v in c2.violations)
     if "tree" in key:
         dt = np.dtype(key["dtype"]).type
         pool = L.leaf_pool(random.Random(key["tseed"]), key["n"], dt)
